@@ -193,7 +193,46 @@ func c18idBytes[T any](c *c18, cd *c18idc[T], b []byte, op string) {
 }
 
 // c18idFuzz feeds random bytes of every length 0…2×nominal and mutations of valid encodings.
+// c18idRetain: identifiers decoded from a stream stay what they were decoded as while further
+// identifiers are decoded (a server decodes the next request while the previous one is being served;
+// a decoder that hands out memory it reuses would change an identifier after the fact). The retained
+// values are judged by re-encoding them: their bytes must still be the bytes they were decoded from.
+func c18idRetain[T any](c *c18, cd *c18idc[T]) {
+	cd.mu.Lock()
+	encs := c18spread(cd.valid, 96)
+	cd.mu.Unlock()
+	if len(encs) < 2 {
+		return
+	}
+	vals := make([]T, len(encs))
+	ok := make([]bool, len(encs))
+	for i, e := range encs {
+		if p, _ := vkit.Recover(func() {
+			v, _, err := cd.readFrom(bytes.NewReader(e))
+			vals[i], ok[i] = v, err == nil
+		}); p != nil {
+			ok[i] = false
+		}
+	}
+	for i, e := range encs {
+		if !ok[i] {
+			continue
+		}
+		c.run.Eval(1)
+		c.run.Count("id/"+cd.name+"/retained-while-decoding-others", 1)
+		var again []byte
+		var err error
+		if p, _ := vkit.Recover(func() { again, err = cd.marshal(vals[i]) }); p != nil || err != nil || !bytes.Equal(again, e) {
+			c.run.Violation("C18 id/"+cd.name+" decoded from a stream changes while later identifiers are decoded", map[string]any{
+				"decoded_from": c18hex(e), "re-encodes_to": c18hex(again), "err": fmt.Sprint(err), "decoded_after_it": len(encs) - i - 1,
+				"why": "the value returned by ReadFrom no longer encodes to the bytes it was read from: it shares memory with the decoder"})
+			return
+		}
+	}
+}
+
 func c18idFuzz[T any](c *c18, cd *c18idc[T], r *vkit.RNG) {
+	c18idRetain(c, cd)
 	per := vkit.Scale(60, 600)
 	for l := 0; l <= 2*cd.size; l++ {
 		n := per
@@ -912,6 +951,9 @@ type c18cc[T any] struct {
 	desc        func(T) string
 	malformed   func(T) string // "" when every share the value exposes is well-formed
 	witness     func(T) any    // optional: what happens when the malformed value is used
+	// decInto (stream codecs): decode into an existing receiver, the way the shrex getter reuses one
+	// response variable across the peers it tries
+	decInto func(*T, []byte) error
 
 	mu    sync.Mutex
 	valid [][]byte
@@ -1012,7 +1054,89 @@ func c18ccFeed[T any](c *c18, cc *c18cc[T], b []byte, op string) {
 	}
 }
 
+// c18ccReuse: (1) values stay what they were decoded as while further values are decoded (judged by
+// re-encoding the retained values); (2) decoding into a receiver that already holds another value — or
+// the remains of a failed decode — gives what decoding into a fresh receiver gives.
+func c18ccReuse[T any](c *c18, cc *c18cc[T], r *vkit.RNG) {
+	cc.mu.Lock()
+	encs := c18spread(cc.valid, 40)
+	cc.mu.Unlock()
+	if len(encs) < 2 {
+		return
+	}
+	// canonical encodings only: enc(dec(b)) == b when judged at once
+	var keep [][]byte
+	for _, e := range encs {
+		var again []byte
+		var err error
+		if p, _ := vkit.Recover(func() {
+			var v T
+			if v, err = cc.dec(e); err == nil {
+				again, err = cc.enc(v)
+			}
+		}); p == nil && err == nil && bytes.Equal(again, e) {
+			keep = append(keep, e)
+		}
+	}
+	vals := make([]T, len(keep))
+	for i, e := range keep {
+		_, _ = vkit.Recover(func() { vals[i], _ = cc.dec(e) })
+	}
+	for i, e := range keep {
+		c.run.Eval(1)
+		c.run.Count("container/"+cc.key()+"/retained-while-decoding-others", 1)
+		var again []byte
+		var err error
+		if p, _ := vkit.Recover(func() { again, err = cc.enc(vals[i]) }); p != nil || err != nil || !bytes.Equal(again, e) {
+			c.run.Violation("C18 "+cc.key()+" decoded value changes while later values are decoded", map[string]any{
+				"decoded_from": c18hex(e), "re-encodes_to": c18hex(again), "err": fmt.Sprint(err), "decoded_after_it": len(keep) - i - 1})
+			break
+		}
+	}
+	if cc.decInto == nil {
+		return
+	}
+	for i, a := range encs {
+		for j, b := range encs {
+			if i == j {
+				continue
+			}
+			var recv, fresh T
+			var errA, errB, errF error
+			first := a
+			if (i+j)%5 == 0 && len(a) > 2 { // the remains of a failed decode
+				first = a[:len(a)-1-r.Intn(len(a)/2)]
+			}
+			if p, site := vkit.Recover(func() {
+				errA = cc.decInto(&recv, first)
+				errB = cc.decInto(&recv, b)
+				fresh, errF = cc.dec(b)
+			}); p != nil {
+				c.run.Violation("C18 "+cc.key()+" decoder panics @"+site, map[string]any{"panic": fmt.Sprint(p), "first": c18hex(first), "then": c18hex(b)})
+				return
+			}
+			_ = errA
+			c.run.Eval(1)
+			c.run.Count("container/"+cc.key()+"/decoded-into-used-receiver", 1)
+			if (errB == nil) != (errF == nil) || (errB == nil && !cc.eq(recv, fresh)) {
+				got := "error: " + fmt.Sprint(errB)
+				if errB == nil {
+					got = cc.desc(recv)
+				}
+				want := "error: " + fmt.Sprint(errF)
+				if errF == nil {
+					want = cc.desc(fresh)
+				}
+				c.run.Violation("C18 "+cc.key()+" decoding into a used receiver differs from decoding into a fresh one", map[string]any{
+					"receiver_held": c18hex(first), "first_decode_failed": errA != nil, "decoded": c18hex(b), "got": got, "fresh": want})
+				return
+			}
+		}
+	}
+}
+
 func c18ccFuzz[T any](c *c18, cc *c18cc[T], r *vkit.RNG) {
+	c18ccReuse(c, cc, r.Split("reuse"))
 	cc.mu.Lock()
 	all := append([][]byte(nil), cc.valid...)
 	cc.mu.Unlock()
@@ -1241,7 +1365,7 @@ func (c *c18) containers(r *vkit.RNG) {
 	smpPB := &c18cc[shwap.Sample]{kind: "sample", codec: "pb", eq: c18sampleEq, desc: c18sampleDesc, malformed: smpMal,
 		enc: func(v shwap.Sample) ([]byte, error) { return v.ToProto().Marshal() },
 		dec: c18pbDec(&pb.Sample{}, shwap.SampleFromProto)}
-	smpST := &c18cc[shwap.Sample]{kind: "sample", codec: "stream", eq: c18sampleEq, desc: c18sampleDesc, malformed: smpMal,
+	smpST := &c18cc[shwap.Sample]{decInto: func(v *shwap.Sample, b []byte) error { _, err := v.ReadFrom(bytes.NewReader(b)); return err }, kind: "sample", codec: "stream", eq: c18sampleEq, desc: c18sampleDesc, malformed: smpMal,
 		enc: func(v shwap.Sample) ([]byte, error) {
 			var b bytes.Buffer
 			_, err := v.WriteTo(&b)
@@ -1261,7 +1385,7 @@ func (c *c18) containers(r *vkit.RNG) {
 	rowPB := &c18cc[shwap.Row]{kind: "row", codec: "pb", eq: rowEqLoose, desc: c18rowDesc, malformed: c18rowMalformed,
 		enc: func(v shwap.Row) ([]byte, error) { return v.ToProto().Marshal() },
 		dec: c18pbDec(&pb.Row{}, shwap.RowFromProto)}
-	rowST := &c18cc[shwap.Row]{kind: "row", codec: "stream", eq: rowEqLoose, desc: c18rowDesc, malformed: c18rowMalformed,
+	rowST := &c18cc[shwap.Row]{decInto: func(v *shwap.Row, b []byte) error { _, err := v.ReadFrom(bytes.NewReader(b)); return err }, kind: "row", codec: "stream", eq: rowEqLoose, desc: c18rowDesc, malformed: c18rowMalformed,
 		enc: func(v shwap.Row) ([]byte, error) { var b bytes.Buffer; _, err := v.WriteTo(&b); return b.Bytes(), err },
 		dec: func(b []byte) (v shwap.Row, err error) { _, err = v.ReadFrom(bytes.NewReader(b)); return }}
 	rowJS := &c18cc[shwap.Row]{kind: "row", codec: "json", eq: rowEqLoose, desc: c18rowDesc, malformed: c18rowMalformed,
@@ -1272,7 +1396,7 @@ func (c *c18) containers(r *vkit.RNG) {
 	rndPB := &c18cc[shwap.RowNamespaceData]{kind: "rnd", codec: "pb", eq: c18rndEq, desc: c18rndDesc, malformed: rndMal,
 		enc: func(v shwap.RowNamespaceData) ([]byte, error) { return v.ToProto().Marshal() },
 		dec: c18pbDec(&pb.RowNamespaceData{}, shwap.RowNamespaceDataFromProto)}
-	rndST := &c18cc[shwap.RowNamespaceData]{kind: "rnd", codec: "stream", eq: c18rndEq, desc: c18rndDesc, malformed: rndMal,
+	rndST := &c18cc[shwap.RowNamespaceData]{decInto: func(v *shwap.RowNamespaceData, b []byte) error { _, err := v.ReadFrom(bytes.NewReader(b)); return err }, kind: "rnd", codec: "stream", eq: c18rndEq, desc: c18rndDesc, malformed: rndMal,
 		enc: func(v shwap.RowNamespaceData) ([]byte, error) {
 			var b bytes.Buffer
 			_, err := v.WriteTo(&b)
@@ -1298,7 +1422,7 @@ func (c *c18) containers(r *vkit.RNG) {
 		}
 		return out + "]"
 	}
-	ndST := &c18cc[shwap.NamespaceData]{kind: "nd", codec: "stream", eq: c18ndEq, desc: ndDesc, malformed: ndMal,
+	ndST := &c18cc[shwap.NamespaceData]{decInto: func(v *shwap.NamespaceData, b []byte) error { _, err := v.ReadFrom(bytes.NewReader(b)); return err }, kind: "nd", codec: "stream", eq: c18ndEq, desc: ndDesc, malformed: ndMal,
 		enc: func(v shwap.NamespaceData) ([]byte, error) {
 			var b bytes.Buffer
 			_, err := v.WriteTo(&b)
@@ -1320,7 +1444,10 @@ func (c *c18) containers(r *vkit.RNG) {
 	rgPB := &c18cc[shwap.RangeNamespaceData]{kind: "range", codec: "pb", eq: c18rangeEq, desc: c18rangeDesc, malformed: rgMal,
 		enc: func(v shwap.RangeNamespaceData) ([]byte, error) { return v.ToProto().Marshal() },
 		dec: c18pbDec(&pb.RangeNamespaceData{}, shwap.RangeNamespaceDataFromProto)}
-	rgST := &c18cc[shwap.RangeNamespaceData]{kind: "range", codec: "stream", eq: c18rangeEq, desc: c18rangeDesc, malformed: rgMal,
+	rgST := &c18cc[shwap.RangeNamespaceData]{decInto: func(v *shwap.RangeNamespaceData, b []byte) error {
+		_, err := v.ReadFrom(bytes.NewReader(b))
+		return err
+	}, kind: "range", codec: "stream", eq: c18rangeEq, desc: c18rangeDesc, malformed: rgMal,
 		enc: func(v shwap.RangeNamespaceData) ([]byte, error) {
 			var b bytes.Buffer
 			_, err := v.WriteTo(&b)
